@@ -595,6 +595,32 @@ def big_join_scenario(args):
             return j.get("totalCount")
         lt, ft = total(n1), total(n3)
         res["steps"].append({"step": "compared", "keys": K, "different": len(diff), "listing_total_leader": lt, "listing_total_follower": ft, "leader_metrics": n1.metrics(), "follower_metrics": n3.metrics()})
+        if not diff and (lt is None or lt == ft):
+            # the caught-up node restarts: what it reloads from its own files must again be the leader's state
+            n3.kill()
+            n3.start(wait=True, timeout=40)
+            t2 = time.time()
+            while time.time() - t2 < B:
+                fm, lm = n3.metrics() or {}, n1.metrics() or {}
+                if fm.get("last_applied") and fm.get("last_applied") == lm.get("last_applied"):
+                    break
+                time.sleep(0.3)
+            deadline = time.time() + B
+            while True:
+                lv, fv = read_all(n1), read_all(n3)
+                diff2 = [i for i in range(K) if lv[i] != fv[i]]
+                res["compared_items"] += K
+                if not diff2 or time.time() > deadline:
+                    break
+                time.sleep(1.0)
+            ft2 = total(n3)
+            res["steps"].append({"step": "compared-after-restart", "different": len(diff2), "listing_total_follower": ft2, "snapshots_in_follower_dir": sorted(p for p in os.listdir(n3.dir) if p.startswith("snapshot_"))})
+            if diff2 or (lt is not None and ft2 != lt):
+                i = diff2[0] if diff2 else None
+                res["violations"].append(("join/data-differs-after-restart/configs",
+                                          {"scenario": name, "variant": "big snapshot; the caught-up node was restarted", "keys": K, "different_keys": len(diff2), "listing_total_leader": lt, "listing_total_follower": ft2,
+                                           "example_key": None if i is None else "big%d" % i, "leader": None if i is None else lv[i][:40], "follower": None if i is None else fv[i][:40],
+                                           "leader_metrics": n1.metrics(), "follower_metrics": n3.metrics()}))
         if not diff and lt is not None and lt != ft:
             res["violations"].append(("join/data-differs-after-snapshot-install/configs",
                                       {"scenario": name, "variant": "big snapshot, keys rewritten through the joining node during the install", "what": "listing total differs although every key reads the same",
